@@ -103,6 +103,7 @@ type Exec struct {
 	probing  int
 	fuel, unfoldDepth int
 	fuelOverride int
+	autoDone     map[string]bool
 	unfolded map[string]bool
 	interpretNL bool
 	pureExpanding map[string]int
